@@ -47,7 +47,39 @@ def sh(cmd, cwd=None, env=None, timeout=3600):
     return r.returncode, r.stdout
 
 
+def regen_known():
+    """Known (unrepaired) findings: search /repo itself without the matcher until a failure tagged
+    with the finding's id shows up; its shrunk input becomes the finding's replay file."""
+    kf = json.load(open(os.path.join(VERIF, "known_findings.json")))["findings"]
+    for k in kf:
+        if k.get("status") != "known":
+            continue
+        pid, tag = k["property"], "[" + k["matcher"] + "]"
+        sys.path.insert(0, os.path.join(VERIF, "bin"))
+        import vcheck
+        binary = vcheck.build(pid, quiet=True)
+        cfg = vcheck.conf(pid)["quick"]
+        for seed in range(1, 40):
+            out = "/tmp/regen_known.json"
+            subprocess.run([binary, "--rc", "--seed", str(seed), "--n", "3000", "--scale", str(cfg["scale"]), "--max-size", "100", "--size-arg", str(cfg.get("arg", 0)),
+                            "--case-timeout", "30", "--out", out], stdout=subprocess.DEVNULL, stderr=subprocess.DEVNULL, env=vcheck.env_for_run())
+            try:
+                v = json.load(open(out)).get("violation")
+            except Exception:
+                v = None
+            if v and tag in v.get("kind", ""):
+                with open(os.path.join(VERIF, k["replay"]), "wb") as f:
+                    f.write(bytes.fromhex(v["bytes_hex"]))
+                print("%s ok %s <- %s | %s" % (k["id"], k["replay"], v["detail"][:160], v["desc"][:200]), flush=True)
+                break
+        else:
+            print("%s: NO failing input found without the matcher" % k["id"], flush=True)
+
+
 def main():
+    if sys.argv[1:] == ["known"]:
+        regen_known()
+        return 0
     todo = sys.argv[1:] or list(PLAN)
     report = {}
     for d in todo:
@@ -90,6 +122,8 @@ def main():
             sh("git -C %s worktree remove --force %s" % (REPO, wt))
             shutil.rmtree(wt, ignore_errors=True)
     json.dump(report, open("/tmp/regen_corpus_report.json", "w"), indent=1)
+    if not sys.argv[1:]:
+        regen_known()
     return 0
 
 
